@@ -161,17 +161,21 @@ def select_start_nodes(td, env, num_starts):
             % num_loc
             + 1
         )
-        if env.name == "op":
-            if (td["action_mask"][..., 1:].float().sum(-1) < num_starts).any():
-                # for the orienteering problem, we may have some nodes that are not available
-                # so we need to resample from the distribution of available nodes
-                selected = (
-                    torch.multinomial(
-                        td["action_mask"][..., 1:].float(), num_starts, replacement=True
-                    )
-                    + 1
-                )  # re-add depot index
-                selected = rearrange(selected, "b n -> (n b)")
+        if env.name in ["op", "svrp", "mtsp"]:
+            # Some customers may be infeasible as a first move (OP: beyond reach within max_length, SVRP: the first
+            # technician lacks the skill) and mTSP's `num_loc` counts the depot: cycle, per instance, through that
+            # instance's own feasible customers (in index order) instead of through all indices
+            feasible = td["action_mask"][..., 1:].bool()  # customers only
+            n_feasible = feasible.sum(-1)
+            order = torch.argsort((~feasible).int(), dim=-1, stable=True)  # feasible customers first
+            idx = (
+                torch.arange(num_starts, device=td.device)[None, :]
+                % n_feasible.clamp(min=1)[:, None]
+            )
+            selected = order.gather(-1, idx) + 1  # re-add depot index
+            # no customer can be the first move (e.g. SVRP: the first technician serves nobody): start at the depot
+            selected = selected * (n_feasible > 0)[:, None]
+            selected = rearrange(selected, "b n -> (n b)")
     return selected
 
 
